@@ -331,13 +331,13 @@ Definition mixin_only_on_fields (d : ddef) : bool :=
   end.
 
 (* coverage guard of fragments_exact: every fragment spread (at any depth) from the operation's own
-   selection set or from the definition of an unpacked fragment is itself recorded as a mixin or as
-   unpacked.  False exactly when _resolve_selection_set dropped a spread or a class was skipped. *)
-Definition covered (frs : list fdef) (o : opdef) (mix unp : list string) : bool :=
-  let rec := mix ++ unp in
-  forallb (fun n => mem n rec) (sel_spreads (o_sel o))
+   selection set or from the definition of an unpacked fragment is among the related fragments [rel]
+   (as a mixin, below a mixin, or unpacked).  False exactly when a spread dropped by
+   _resolve_selection_set (or under a skipped class) is not picked up anywhere else. *)
+Definition covered (frs : list fdef) (o : opdef) (rel unp : list string) : bool :=
+  forallb (fun n => mem n rel) (sel_spreads (o_sel o))
   && forallb (fun u => match lookup_fdef frs u with
-                       | Some f => forallb (fun n => mem n rec) (sel_spreads (fd_sel f))
+                       | Some f => forallb (fun n => mem n rel) (sel_spreads (fd_sel f))
                        | None => false end) unp.
 
 (* what was recorded is reachable from the operation (second half of the guard of fragments_exact) *)
@@ -348,7 +348,10 @@ Definition recorded_reachable (fuel : nat) (frs : list fdef) (o : opdef) (mix un
   end.
 
 Definition exact_guard (fuel : nat) (frs : list fdef) (o : opdef) (mix unp : list string) : bool :=
-  covered frs o mix unp && recorded_reachable fuel frs o mix unp.
+  match related fuel frs mix unp with
+  | Some rel => covered frs o rel unp && recorded_reachable fuel frs o mix unp
+  | None => false
+  end.
 
 (* ---- sexp interface ---- *)
 Definition e_doc (d : list ddef) : sexp := L (map e_ddef d).
@@ -379,7 +382,8 @@ Definition run_opstr (e : sexp) : sexp :=
                                    (o_sel o) false ;;
                          Ok (out ++ [L [L (map A (sorted_set (ps_mix st))); L (map A (sorted_set (ps_unp st)));
                                         sOpt (fun l => L (map A l)) (related fuel fs (ps_mix st) (ps_unp st));
-                                        sB (covered fs o (ps_mix st) (ps_unp st));
+                                        sB (match related fuel fs (ps_mix st) (ps_unp st) with
+                                            | Some rel => covered fs o rel (ps_unp st) | None => false end);
                                         sB (recorded_reachable fuel fs o (ps_mix st) (ps_unp st))]],
                              ps_ins st)) os (Ok ([], ins0)) in
               match r with
